@@ -150,7 +150,8 @@ Lemma resume_unfold s0 t fo :
   | CYield YCkIf =>
       match inc with
       | Some e => ret_to_puppet s t (RExc e)
-      | None => blocked (bare_yield s t)
+      | None => if ckif_spins (nscope s) s (k_cur (tasks s t)) then blocked (bare_yield s t)
+                else ret_to_puppet s t (RRet 0)
       end
   | CYield (YShield c) =>
       let '(s1, x) := scope_exit s c t inc in
@@ -239,7 +240,7 @@ Proof.
   - cbn [fst set_running groups]. rewrite groups_park. destruct inc; reflexivity.
   - destruct k as [| |c].
     + now rewrite groups_ret.
-    + destruct inc; [now rewrite groups_ret|reflexivity].
+    + destruct inc; [now rewrite groups_ret|]. destruct (ckif_spins _ _ _); [reflexivity|now rewrite groups_ret].
     + pose proof (groups_scope_exit s c t inc) as H. destruct (scope_exit s c t inc) as [s1 x]. cbn [fst] in H.
       destruct x; now rewrite groups_ret.
   - now rewrite groups_ret.
